@@ -212,25 +212,6 @@ func init() {
 		}
 		k(st, res)
 	}
-	// polybig.EqualSum(b0, b1): per-dimension totals of two Summers agree. Until the
-	// summation functions are under contract the result is the ghost relation
-	// sumsEqAlloc / sumDimsEq over the two allocations (trusted; listed in the evidence).
-	libSpecs["polycry.pt/poly-go/math/big.EqualSum"] = func(e *Engine, st *State, fn *ssa.Function, args []Val, pos token.Pos, k Kont) {
-		tb := e.tb
-		var flat []*Term
-		for _, a := range args {
-			ix, ok := a.ann("").(*IfaceX)
-			if !ok || ix.Box == nil {
-				panic(e.unsupported("EqualSum on a Summer of unknown dynamic type"))
-			}
-			flat = append(flat, e.ghostArgs(st, ix.Dyn, *ix.Box)...)
-		}
-		eq := tb.App("ghost_sumsEqAlloc", SBool, flat...)
-		dims := tb.App("ghost_sumDimsEq", SBool, flat...)
-		errv := e.newError(st, "dim")
-		res := Val{Elems: []Val{scalar(tb.And(dims, eq)), Val{T: []*Term{tb.Ite(dims, tb.Int(0), errv.ifTag()), tb.Ite(dims, tb.Int(0), errv.ifVal())}}}}
-		k(st, res)
-	}
 	// math.Ceil(float64(n)/c): the only float expression on the codec paths (mask length of sparse signatures).
 	libSpecs["math.Ceil"] = func(e *Engine, st *State, fn *ssa.Function, args []Val, pos token.Pos, k Kont) {
 		a := args[0].T[0]
